@@ -64,6 +64,20 @@ def cases(tier, rng):
             hot = rng.randrange(3)
             steps.append(frame(raw(pads=[pad(p, [bt for bt in range(2) if rng.random() < .4], [(0, rng.choice([F(1, 2), F(-1)]) if p == hot else F(0))]) for p in range(3)]), rand_dt(rng)))
         yield (scenario(sorted([ex, sh]), ents3, cfg, steps), 'per-entity-gamepads')
+    # the same with CONSUMING actions on all instances: what an instance on one gamepad consumes must not hide the same
+    # button or axis of another gamepad from the instance tied to that one
+    for _ in range(200 if tier == 'thorough' else 30):
+        ids = Ids()
+        ex = rng.choice([0, 2, 4, 6]); ents3 = [0, 1, 2]
+        cfg = {}
+        for e in ents3:
+            cfg[(ex, e)] = spec([action(ids, aid(0, 0, True, False), [bind(ids, pbutton(0), [PROBE], [])]),
+                                 action(ids, aid(1, 0, True, False), [bind(ids, paxis(0), [PROBE], [])])], pad=e)
+        steps = [sop(spawn(e, [ex])) for e in ents3]
+        steps.append(frame(raw(pads=[pad(p) for p in range(3)])))
+        for k in range(rng.randint(5, 10)):
+            steps.append(frame(raw(pads=[pad(p, [0] if rng.random() < .6 else [], [(0, rng.choice([F(1, 2), F(-1), F(0)]))]) for p in range(3)]), rand_dt(rng)))
+        yield (scenario([ex], ents3, cfg, steps), 'per-entity-gamepads-consuming')
     for _ in range(1500 if tier == 'thorough' else 200):
         menu = pick_menu(rng, rng.randint(2, 3))
         ents = [0, 1, 2]
@@ -78,10 +92,10 @@ def nontrivial(case, out):
 STAGES = [dict(name='fanout', mode='app', coq='Check.C14c', cases=cases, nontrivial=nontrivial, shard=25,
                exhaustive={'thorough': False, 'quick': True},
                rule='an exclusive and a shared context type side by side, three entities; exclusive instances are driven by entity-specific scripted states, the shared one by one script; '
-                    'every single join/leave (insert/remove x entity x type) after frames 1, 2, 4 (quick; ordered pairs, sampled to 1500, in thorough) and random histories of 0-6 ops over 6-16 frames; exclusive instances tied to different gamepads (or unrestricted) next to a shared context, three gamepads with independent button/axis activity, a rebuild in the middle; '
+                    'every single join/leave (insert/remove x entity x type) after frames 1, 2, 4 (quick; ordered pairs, sampled to 1500, in thorough) and random histories of 0-6 ops over 6-16 frames; exclusive instances tied to different gamepads (or unrestricted) next to a shared context, three gamepads with independent button/axis activity, a rebuild in the middle; the same with consuming actions on every instance and several gamepads active at once; '
                     'non-trivial = some event is delivered to the second or third entity; distinct = distinct scenario text')]
 CLAUSES = {1: 'an entity that did not hold the context at evaluation time received one of its events', 2: 'holders of a shared context did not receive identical event lists', 5: 'an exclusive instance does not follow the configuration of its own entity (state differs from what its own scripted condition says for the instance\'s age)',
-           3: 'the events an exclusive owner received are not those of its own instance', 4: 'a binding of a per-entity instance did not read its own device (instances with different gamepads are not independent)', 8: 'panic', 9: 'malformed trace', 10: 'panic'}
+           3: 'the events an exclusive owner received are not those of its own instance', 4: 'a binding of a per-entity instance did not read its own device (instances with different gamepads are not independent)', 6: 'with consuming actions: a read of a per-entity instance differs from the raw input of its own device although nothing related (same device, or an unrestricted instance) was consumed before it - or was not hidden although something was', 8: 'panic', 9: 'malformed trace', 10: 'panic'}
 def describe(stage, clause): return CLAUSES.get(clause, 'clause %d' % clause)
 def matches_known(k, case, verdict): return False
 TRUSTED = TRUSTED_BASE + ['Bevy 0.15 observer dispatch (trigger_targets to global observers) modelled operationally']
